@@ -143,7 +143,15 @@ class Spec:
         st.nopen = 0
         st.dec = hpack.Decoder()           # the peer's decoder, follows the library's encoder
         st.dec.max_header_list_size = 2 ** 31
-        return [("new", st)]
+        out = [("new", st)]
+        # a second start state two calls further on (connection initiated, one stream open), so that the depth bound
+        # reaches histories such as: peer raises MAX_FRAME_SIZE, push, peer lowers it again, large block on the promised stream
+        st2 = pickle.loads(pickle.dumps(st))
+        for lab in ("initiate", "open"):
+            step = self.apply(st2, lab)
+            assert not step.violations and not st2.dead, (lab, step.violations)
+        out.append(("initiated+open", st2))
+        return out
 
     def fingerprint(self, st):
         return fingerprint(st.conn, st.initiated, st.F, st.peer_pref, tuple(st.streams), tuple(sorted(st.hdr_sent)), st.dead, st.nopen, st.dec)
@@ -153,8 +161,10 @@ class Spec:
             return []
         if not st.initiated:
             return ["initiate", "initiate-upgrade"]
-        acts = ["ping", "settings:2", "settings:0", "incr:0", "close:0", "close:d", "rx:mfs:%d" % FRAME_LIMITS[1],
+        acts = ["ping", "settings:2", "settings:0", "settings:dflt", "incr:0", "close:0", "close:d", "rx:mfs:%d" % FRAME_LIMITS[1],
                 "rx:mfs:%d" % FRAME_LIMITS[3], "rx:ping", "rx:settings"]
+        if st.F != FRAME_LIMITS[0]:
+            acts.append("rx:mfs:%d" % FRAME_LIMITS[0])      # the peer lowers its limit again
         if st.nopen < 2:
             acts.append("open")
         if self.client:
@@ -268,6 +278,9 @@ class Spec:
                 expect_single(o, bad, lab, wire.PING, 0, ack=False, opaque=b"abcdefgh")
         elif parts[0] == "settings":
             d = {wire.S_INITIAL_WINDOW_SIZE: 70000, wire.S_MAX_CONCURRENT_STREAMS: 7} if parts[1] == "2" else {}
+            if parts[1] == "dflt":
+                # values equal to the ones in force (or, after settings:2, back to them): still one frame with both pairs
+                d = {wire.S_INITIAL_WINDOW_SIZE: 65535, wire.S_MAX_FRAME_SIZE: 16384}
             o = H.call(c, "update_settings", d)
             if o.kind == "ok":
                 expect_single(o, bad, lab, wire.SETTINGS, 0, ack=False, settings=list(d.items()))
@@ -343,13 +356,17 @@ class Spec:
             o = H.call(c, "push_stream", sid, promised, hdrs)
             if o.kind == "ok" and check_frames(o, st.F, bad, lab):
                 expect_headers_like(o, wire.PUSH_PROMISE, sid, hdrs, False, None, st.F, bad, lab, promised=promised, dec=st.dec)
+                if promised not in st.streams and len(st.streams) < 3:
+                    st.streams.append(promised)      # the server may now send the pushed response on it
         else:
             raise ValueError(lab)
         if o.kind == "ok":
             check_frames(o, st.F, bad, lab)
             out += "-ok"
         else:
-            if o.raw and o.is_h2:
+            if o.raw:
+                # whatever the exception, these bytes are now part of what data_to_send returns
+                check_frames(o, st.F, bad, lab + " (raised %s)" % o.exc_name)
                 bad("refused-call-emitted", "%s raised %s but emitted %s" % (lab, o.exc_name, o.brief()))
             out += "-refused"
             st.dead = True          # refused calls are C29/C01 business; stop here
